@@ -19,6 +19,8 @@ Shape description (nested tuples):
   ("commands", common, subs, "lvalue")                        make_commands(lvalues...): the forwarding constructor copies
   ("apply", [p1, ..., pn])   n >= 2: fcppt::options::apply(p1, ..., pn) = product(p1, product(p2, ...))
   ("ref", p)    the parent gets fcppt::make_cref(p)             (parsers held by reference; the model sees p)
+  ("sref", key, p)  the same, and all occurrences of `key` in the shape refer to one and the same parser object
+  ("copy", p)   the parent gets a copy of p made with the copy constructor
   ("base", p)   the parent gets make_base<result_of<P>>(p)      (type-erased unique_ptr<base<Result>>; the model sees p)
 ty in int | uns | str | enm; enum values are enumerator indices of `color {red, green, blue}`.
 A shape entry: dict(id, p, help=None | (short|None, long) | "default" (= default_help_switch()), kind = "ok" | "ctor" | "hang", note)
@@ -42,6 +44,8 @@ CMD = lambda c, subs: ("commands", c, subs)
 CMDL = lambda c, subs: ("commands", c, subs, "lvalue")
 APPLY = lambda *ps: ("apply", list(ps))
 REF = lambda p: ("ref", p)
+SREF = lambda key, p: ("sref", key, p)     # every occurrence of the key refers to ONE parser object (constructed at the first)
+COPY = lambda p: ("copy", p)               # the parent gets a copy-constructed copy; the original stays alive beside it
 BASE = lambda p: ("base", p)
 DEFAULT_HELP = (None, "help")      # what default_help_switch() is documented to be ("--help"; see default_help_switch.cpp)
 
@@ -209,6 +213,15 @@ S(SUM("s", P(F("a", "m", "mode", "str", "fast", "slow", "two\nlines"), A("b", "u
 S(OPT(SUM("s", SUM("t", US("a", "x", "ex"), US("b", None, "why")), P(O("c", None, "o", "enm", 2, "third colour"), MANY(A("d", "enm", "colours"))))),
   "nested sums below optional, enum option with default (usage prints the default and the enumerator list)")
 
+# ---- one parser object referred to twice, copies of parsers
+S(SUM("s", SREF("k", P(US("a", None, "k"), A("b", "int"))), SREF("k", P(US("a", None, "k"), A("b", "int")))),
+  "sum whose two alternatives are references to the same parser object")
+S(CMD(SREF("c", SW("a", "v", "verbose")), [("one", "x", SREF("p", MANY(A("b", "str")))), ("two", "y", SREF("p", MANY(A("b", "str")))), ("three", "z", SREF("c", SW("a", "v", "verbose")))]),
+  "commands whose sub-commands share parser objects with each other and with the common parser")
+S(P(COPY(O("a", "o", "opt", "int", 4)), COPY(MANY(P(US("b", None, "k"), A("c", "str"))))), "product of copies (copy constructors of option, many, product, unit_switch, argument)")
+S(COPY(CMD(COPY(SW("a", None, "v")), [("go", "x", COPY(OPT(SUM("s", A("b", "int"), F("c", None, "m", "enm", 1, 0)))))])),
+  "copies of commands, switch, optional, sum, flag<enum>")
+
 SHAPES = _S
 
 LABELS = ["a", "b", "c", "d", "e", "g", "s", "t", "x", "y", "z"]
@@ -221,8 +234,10 @@ def norm(p):
     """the parser the model sees: wrappers that only change how the C++ object is held are dropped,
     apply(p1..pn) is the right-nested product"""
     k = p[0]
-    if k in ("ref", "base"):
+    if k in ("ref", "base", "copy"):
         return norm(p[1])
+    if k == "sref":
+        return norm(p[2])
     if k == "apply":
         ps = [norm(q) for q in p[1]]
         r = ps[-1]
@@ -405,6 +420,7 @@ def gen_lean():
            "/-- what the harness constructs, in construction order: a parser object or a `sub_command` -/",
            "inductive Node where",
            "  | parser (p : OP)",
+           "  | erased (p : OP)      -- the same parser behind `base<Result>` (make_base)",
            "  | sub (name : String) (help : Option String)",
            "",
            "structure Shape where",
@@ -419,7 +435,7 @@ def gen_lean():
         h = "none" if not hh else f"(some ({lopt(hh[0])}, {lstr(hh[1])}))"
         e = Emit()
         e.top(s["p"])
-        nodes = ",\n     ".join(f".sub {lstr(n[1])} {lopt(n[2])}" if n[0] == "sub" else f".parser {lean_op(n[1])}" for n in e.nodes)
+        nodes = ",\n     ".join(f".sub {lstr(n[1])} {lopt(n[2])}" if n[0] == "sub" else f".{n[0]} {lean_op(n[1])}" for n in e.nodes)
         rows.append(f"  -- {s['id']}: {s['note']}\n  ⟨{lean_op(s['p'])}, {h},\n    [{nodes}]⟩")
     out.append(",\n".join(rows))
     out.append("]")
@@ -474,6 +490,7 @@ class Emit:
         self.lines = []
         self.nodes = []
         self.n = 0
+        self.shared = {}
 
     def var(self, expr, node=None, sub=False):
         self.n += 1
@@ -493,9 +510,17 @@ class Emit:
         k = p[0]
         if k == "ref":
             return f"fcppt::make_cref({self.node(p[1])})"
+        if k == "sref":
+            if p[1] not in self.shared:
+                self.shared[p[1]] = self.node(p[2])
+            return f"fcppt::make_cref({self.shared[p[1]]})"
+        if k == "copy":
+            v = self.node(p[1])
+            c = self.var(f"decltype({v}){{{v}}}", node=("parser", p[1]))
+            return c if top else f"std::move({c})"
         if k == "base":
             v = self.node(p[1])
-            b = self.var(f"fcppt::options::make_base<fcppt::options::result_of<decltype({v})>>(std::move({v}))", node=("parser", p[1]))
+            b = self.var(f"fcppt::options::make_base<fcppt::options::result_of<decltype({v})>>(std::move({v}))", node=("erased", p[1]))
             return b if top else f"std::move({b})"
         v = self.node(p)
         return v if top else f"std::move({v})"
